@@ -22,7 +22,7 @@ func aInt(i int64) aval { return aval{isInt: true, i: i} }
 func aBool(b bool) aval { return aval{b: b} }
 
 // reachGiven returns the instructions of fn reachable from its entry given the oracle's knowledge.
-func reachGiven(fn *ssa.Function, oracle func(v ssa.Value) (aval, bool)) map[ssa.Instruction]bool {
+func reachGiven(fn *ssa.Function, oracle func(v ssa.Value) (aval, bool), stop ...func(ssa.Instruction) bool) map[ssa.Instruction]bool {
 	reached := map[ssa.Instruction]bool{}
 	if len(fn.Blocks) == 0 {
 		return reached
@@ -70,6 +70,9 @@ func reachGiven(fn *ssa.Function, oracle func(v ssa.Value) (aval, bool)) map[ssa
 		}
 		for _, in := range b.Instrs {
 			reached[in] = true
+			if len(stop) > 0 && stop[0](in) {
+				return // a call that does not return
+			}
 			switch x := in.(type) {
 			case *ssa.Phi:
 				for k, ed := range x.Edges {
